@@ -573,6 +573,7 @@ func runC17(c *Ctx) {
 	checkSaltedHash(c, "C17-R5")
 	checkInvalidPasswordOnlyOnDigestMismatch(c, "C17-R3")
 	checkChangeVerifiesOldPassphrase(c, "C17-R5")
+	checkGeneratorGetsCallersPassphrase(c, "C17-R3")
 	// "stored parameters and ciphertexts stay bound to the current passphrase": a passphrase change that reports success
 	// has written both the re-sealed crypto keys and the new key parameters (C10-R1's rule, for ChangePassphrase)
 	c.Borrow(runC10, "C10-R1", "C17-R5", func(k string) bool { return strings.Contains(k, "ChangePassphrase") })
